@@ -691,7 +691,7 @@ func constValue(n *Node) (v string) {
 // ---- family leaf: references on their own and between text -----------------
 
 func leafBlocks() []*Block {
-	refs := []*Node{R(0), R(1), R(3), R(-1), R(99), K("99999999999999999999"), K("key"), K("n"), K("nosuchkey"),
+	refs := []*Node{R(0), R(1), R(3), R(-1), R(99), R(1 << 31), R(1<<32 + 1), R(1 << 62), R(1<<62 - 1), R(1<<63 - 1), R(-1 << 63), R(-1<<63 + 1), K("9223372036854775808"), K("18446744073709551617"), K("99999999999999999999"), K("key"), K("n"), K("nosuchkey"),
 		K("src"), K("line"), K("."), K("#"), K(".#"), K("#."), K("@"), K("-"), K("+1"), K("01"), K("0x1")}
 	return []*Block{{ID: "leaf/all", Each: func(yield func(*Prog) bool) bool {
 		for _, a := range refs {
@@ -859,7 +859,7 @@ func Describe(b Bounds) string {
 		"(hof) @map/@filter/@reduce (with and without initial value) over 5 arrays x sub-expressions {0},{1},{-1},{5},{key},{time live},x,'' and every function at arity 1..2 over {0},{1},{-1},{key},0,2,x; "+
 		"(for) @for over 6 starts x 10 conditions x 7 increments (non-terminating conditions only with 8 non-growing combinations); "+
 		"(d2) every function x arity 1..3 x every position holding one of %d inner calls (foldable constants, dynamic, {time live}, key, erroneous), other arguments from the reduced pool (%d values at arity 3) as constant or group; "+
-		"(leaf) 20 group/key references ({0},{-1},{99},{key},{src},{line},{.},{#},{.#},{@}, names that look like numbers ...) alone and in pairs between literal text; "+
+		"(leaf) 31 group/key references ({0},{-1},{99}, group numbers at 2^31, 2^32+1, 2^62-1, 2^62, 2^63-1, -2^63, -2^63+1 and just beyond int64/uint64,{key},{src},{line},{.},{#},{.#},{@}, names that look like numbers ...) alone and in pairs between literal text; "+
 		"(long) templates of 1..%d segments laid out by 10 cycles of {literal, foldable constant call, group, key, call on a group}, as the template itself and as the one quoted argument of a call (the segments are then the stages of the argument's own builder); (mix) every function x arity 1..2 (thorough: 3) x every position holding a value (the position's keywords, numbers, dates, lists, a JSON document, a path, a format) split at up to 4 points into constant text and a group reference inside one quoted argument (`\"2020-03-01T{0}\"`: the optimiser's all-empty probe sees a proper part of the run-time value), head or tail in the group, the other arguments from a small pool; (rng, C08 only) every @range over the integers of the pool whose length is <= 65536 but whose loop variable would leave int64; (math) %d formulas (17 binary operators x 7x7 operands, 18 unary, malformed shapes) x all pairs of %d group values",
 		len(Functions()), b.D1MaxArity, len(Full), b.D1FullArity, len(Reduced), len(innerCalls()), len(b.D2Arity3Pool), LongMax(b.Tier), len(mathFormulas()), len(MathValues))
 }
